@@ -207,6 +207,48 @@ def program_job(arg):
     return rep
 
 
+def self_accept_job(arg):
+    """A library package that accepts itself when imported (dds.accept_module in its __init__) and is used through a
+    function-local import: the signature of the kept path is the same whether the package is first imported by the
+    analysis itself, was imported by the driver beforehand, or the evaluation is the second one of the process."""
+    idx = arg
+    rep = core.Report("C03")
+    L, P = "c3selflib%d" % idx, "c3selfpipe%d" % idx
+    files = {
+        L + "/__init__.py": "import dds\n\ndds.accept_module(%r)\nfrom . import feat\n" % L,
+        L + "/feat.py": "from vp import vlog\nLIMIT = 3\n\n\ndef scale(x):\n    vlog.hit('scale')\n    return ('scale', x, 7, LIMIT)\n",
+        P + "/__init__.py": "# pkg\n",
+        P + "/top.py": "import dds\nfrom vp import vlog\n\n\ndef K():\n    vlog.hit('K')\n    import %s\n    return ('K', %s.feat.scale(3))\n\n\ndef main():\n    return ('main', dds.keep('/c3/self', K))\n" % (L, L),
+    }
+    ent = {"style": "eval", "module": P + ".top", "func": "main", "args_src": "()"}
+    with core.Scratch("vp_c03s_") as td:
+        root = os.path.join(td, "code")
+        os.makedirs(root)
+
+        def seg(name, modules, twice=False):
+            steps = [{"write": files, "how": "import", "modules": modules, "entry": ent}] + ([{"how": "none", "entry": ent}] if twice else [])
+            return {"mode": "impl", "root": root, "accept": [P], "steps": steps, "store": {"kind": "local", "dir": os.path.join(td, "store_" + name)}, "options": {}, "chdir": None}
+
+        variants = [("first-import-by-the-analysis", seg("lazy", [P + ".top"]), "0", -1), ("second-evaluation-same-process", seg("twice", [P + ".top"], twice=True), "0", -1),
+                    ("package-imported-beforehand", seg("early", [L, P + ".top"]), "0", -1), ("first-import-by-the-analysis/hashseed=1", seg("lazy1", [P + ".top"]), "1", -1)]
+        results = [run_variant(v) for v in variants]
+    sigs = {}
+    for name, err, m in results:
+        rep.count("variants_run")
+        if err or not m or m.get("refused"):
+            rep.inconclusive.append("self-accepting package, variant %s: %s" % (name, err or m))
+            continue
+        rep.count("map_comparisons")
+        sigs[name] = m["all_paths"].get("/c3/self")
+    rep.evaluations = len(results)
+    if len(set(sigs.values())) > 1:
+        rep.violate("a package that accepts itself on import, used through a function-local import: the signature of /c3/self depends on when the package was first imported: %r" % dict((k, v and v[:10]) for k, v in sigs.items()),
+                    {"self_accept": True, "idx": idx}, mechanism="variant:self-accepting-package")
+    elif len(sigs) == len(results):
+        rep.nontriv(("c03self", idx))
+    return rep
+
+
 def corpus_job(arg):
     entry = arg
     rep = core.Report("C03")
@@ -306,8 +348,10 @@ def run(tier, seed):
     else:
         rep.inconclusive.append("pinned corpus missing")
 
+    jobs.append(("self", seed))
+
     def dispatch(j):
-        return {"prog": program_job, "corpus": corpus_job}[j[0]](j[1])
+        return {"prog": program_job, "corpus": corpus_job, "self": self_accept_job}[j[0]](j[1])
 
     results = core.fork_map(dispatch, jobs, timeout=1200)
     for j, r in zip(jobs, results):
@@ -323,6 +367,9 @@ def run(tier, seed):
 def replay(payload):
     rep = core.Report("C03")
     c = payload["case"]
+    if c.get("self_accept"):
+        rep.merge(self_accept_job(c["idx"]))
+        return rep
     if "program" in c:
         others = [progs.random_program(core.rng_for(0, "c03o", i), "c3o%d" % i) for i in range(8)]
         for f in others[0]["fns"].values():
